@@ -13,24 +13,26 @@
 (* ResetOnTraffic selects what a non-pong message does to the fail count:   *)
 (* TRUE = the statement of C18 ("any answered ping or other received        *)
 (* message resets the count"), FALSE = the code (only the matching pong).   *)
+(* LateIsTraffic: whether a late answer to a superseded ping counts as such  *)
+(* a message (most permissive reading) or is "not credited to a later ping". *)
 (***************************************************************************)
 EXTENDS Integers, Sequences, FiniteSets, TLC
 
 M0(t0) == [last |-> t0, fails |-> 0, gen |-> 0, pending |-> 0, pings |-> 0, closed |-> FALSE]
 
-Step(m, ev, P, keepAlive, maxRetries, resetOnTraffic) ==
+Step(m, ev, P, keepAlive, maxRetries, resetOnTraffic, lateIsTraffic) ==
   IF m.closed THEN m
   ELSE CASE ev.e = "recv" -> [m EXCEPT !.last = ev.t, !.fails = IF resetOnTraffic THEN 0 ELSE m.fails]
          [] ev.e = "pong" -> IF ev.g = m.pending /\ ev.g # 0      \* still pending (not superseded): callback runs
                              THEN [m EXCEPT !.last = ev.t, !.pending = 0, !.fails = IF ev.g = m.gen THEN 0 ELSE m.fails]
-                             ELSE [m EXCEPT !.last = ev.t, !.fails = IF resetOnTraffic THEN 0 ELSE m.fails]  \* late: just a message
+                             ELSE [m EXCEPT !.last = ev.t, !.fails = IF resetOnTraffic /\ lateIsTraffic THEN 0 ELSE m.fails]  \* late answer
          [] ev.e = "tick" -> IF ev.t > m.last + P
                              THEN IF ~keepAlive THEN [m EXCEPT !.closed = TRUE]
                                   ELSE IF m.fails + 1 > maxRetries THEN [m EXCEPT !.fails = m.fails + 1, !.pending = 0, !.closed = TRUE]
                                   ELSE [m EXCEPT !.fails = m.fails + 1, !.gen = m.gen + 1, !.pending = m.gen + 1, !.pings = m.pings + 1]
                              ELSE m
-RECURSIVE Run(_, _, _, _, _, _, _)
+RECURSIVE Run(_, _, _, _, _, _, _, _)
 \* the sequence of monitor states after each event
-Run(m, evs, k, P, ka, mr, rot) == IF k > Len(evs) THEN <<>>
-                                  ELSE LET m2 == Step(m, evs[k], P, ka, mr, rot) IN <<m2>> \o Run(m2, evs, k + 1, P, ka, mr, rot)
+Run(m, evs, k, P, ka, mr, rot, lit) == IF k > Len(evs) THEN <<>>
+                                  ELSE LET m2 == Step(m, evs[k], P, ka, mr, rot, lit) IN <<m2>> \o Run(m2, evs, k + 1, P, ka, mr, rot, lit)
 =============================================================================
